@@ -114,6 +114,8 @@ def run(rep):
     if stat["failed_run_rewrote_a_file"]:
         rep.notes.append("%d failing runs had already rewritten an earlier user file (newPackage rewrites file by file; C10's concern, not part of C11's wording)" % stat["failed_run_rewrote_a_file"])
 
+    from vlib import probes
+    probes.run(rep, "C11")
 
 def replay(rep, path):
     r = json.load(open(path))
